@@ -172,6 +172,60 @@ theorem writeMpint1Z_nat (n : Nat) : writeMpint1Z (n : Int) = writeMpint1 n := b
     accepts a negative number and the reader returns a different value. -/
 theorem mpint1_negative_not_rt : (writeMpint1Z (-1)).bind readMpint1 = .ok (255, []) := by decide +kernel
 
+/-! ### SSH-1 packets -/
+
+theorem crcTable_lt : ∀ x ∈ crcTable, x < 2 ^ 32 := by decide +kernel
+
+theorem crcTable_getD_lt (i : Nat) : crcTable.getD i 0 < 2 ^ 32 := by
+  rw [List.getD_eq_getElem?_getD]
+  cases h : crcTable[i]? with
+  | none => simp
+  | some x => simp only [Option.getD_some]; exact crcTable_lt x (List.mem_of_getElem? h)
+
+theorem crc_fold_lt (v : Bytes) (c : Nat) (hc : c < 2 ^ 32) :
+    v.foldl (fun crc b => (crc >>> 8) ^^^ crcTable.getD (b.toNat ^^^ (crc % 256)) 0) c < 2 ^ 32 := by
+  induction v generalizing c with
+  | nil => exact hc
+  | cons b v ih =>
+    simp only [List.foldl_cons]
+    apply ih
+    apply Nat.xor_lt_two_pow
+    · exact Nat.lt_of_le_of_lt (Nat.shiftRight_le _ _) hc
+    · exact crcTable_getD_lt _
+
+/-- the checksum always fits the 32-bit field it is compared with -/
+theorem crcCalc_lt (v : Bytes) : crcCalc v < 2 ^ 32 := crc_fold_lt v 0 (Nat.pow_pos (by decide))
+
+/-- **Every protocol-1.5 packet (any type, any data, any padding bytes of the right number — 8 of them when the length is a
+    multiple of 8) is read back exactly by the SSH-1 packet reader**, trailing data untouched. -/
+theorem frame1_read_back (t : UInt8) (data pad rest : Bytes) (hlen : data.length + 5 < 2 ^ 32) (hpad : pad.length = padLen1 (data.length + 5)) :
+    readPacket1 (frame1 t data pad ++ rest) = .ok (some (t.toNat, data, rest)) := by
+  have hl4 : (bytesOf (toBE (data.length + 5) 4)).length = 4 := by simp
+  have hc4 : (bytesOf (toBE (crcCalc (pad ++ (t :: data))) 4)).length = 4 := by simp
+  have hmod : (data.length + 5) % 256 ^ 4 = data.length + 5 := Nat.mod_eq_of_lt (by simpa using hlen)
+  have hcm : crcCalc (pad ++ (t :: data)) % 256 ^ 4 = crcCalc (pad ++ (t :: data)) := Nat.mod_eq_of_lt (by simpa using crcCalc_lt _)
+  have hp8 : padLen1 (data.length + 5) ≤ 8 ∧ 1 ≤ padLen1 (data.length + 5) ∧ (padLen1 (data.length + 5) + (data.length + 5)) % 8 = 0 := by
+    unfold padLen1; omega
+  unfold readPacket1 frame1
+  simp only [List.append_assoc]
+  have hnl : ¬ ((bytesOf (toBE (data.length + 5) 4) ++ (pad ++ (t :: data ++ (bytesOf (toBE (crcCalc (pad ++ t :: data)) 4) ++ rest)))).length < 4) := by simp
+  rw [if_neg hnl, List.take_left' hl4, List.drop_left' hl4, natsOf_bytesOf _ (toBE_lt _ 4), ofBE_toBE, hmod]
+  have hpl : ¬ ((pad ++ (t :: data ++ (bytesOf (toBE (crcCalc (pad ++ t :: data)) 4) ++ rest))).length < padLen1 (data.length + 5)) := by
+    simp only [List.length_append, hpad]; omega
+  rw [if_neg hpl, List.take_left' hpad, List.drop_left' hpad]
+  have hbk : ¬ ((padLen1 (data.length + 5) + (data.length + 5)) % 8 ≠ 0 ∨ data.length + 5 < 5) := by omega
+  rw [if_neg hbk]
+  have hen : ¬ ((t :: data ++ (bytesOf (toBE (crcCalc (pad ++ t :: data)) 4) ++ rest)).length < data.length + 5) := by
+    simp only [List.length_append, List.length_cons, hc4]; omega
+  rw [if_neg hen]
+  have hbody : (t :: data).length = data.length + 5 - 4 := by simp
+  rw [show (t :: data ++ (bytesOf (toBE (crcCalc (pad ++ t :: data)) 4) ++ rest)) = (t :: data) ++ (bytesOf (toBE (crcCalc (pad ++ t :: data)) 4) ++ rest) from rfl]
+  rw [List.take_left' hbody, List.drop_left' hbody, List.take_left' hc4, List.drop_left' hc4, natsOf_bytesOf _ (toBE_lt _ 4), ofBE_toBE, hcm]
+  simp
+
+-- non-vacuity: a packet whose length field is a multiple of 8 carries 8 bytes of padding
+example : padLen1 8 = 8 ∧ readPacket1 (frame1 2 [1, 2, 3] (List.replicate 8 0) ++ [9]) = .ok (some (2, [1, 2, 3], [9])) := by decide +kernel
+
 /-! ### KEXINIT -/
 
 /-- well-formed message: 16-byte cookie, every list non-empty with comma-free names -/
